@@ -209,6 +209,14 @@ PROPS = {
                      "pools of 65536+ addresses (prefixes shorter than /16) are accepted but not served in the suite (time/memory), their arithmetic is covered by C19_accepted_prefix_safe_to_serve"],
         trusted=["std::net address parsing, u8::from_str, String::split are total"],
     ),
+    "C11": dict(
+        suites=[("dhcp", 3000, 60000), ("dhcpcfg", 500, 5000)],
+        extracted=["dhcp.dispatchArms"],
+        rule=DHCP_RULE,
+        assumptions=["where several matched subnets (an `addresses` prefix and a nested match-subnet) differ the manual does not say whose netmask/broadcast is the default; the specification fixes the choice the code makes (innermost within a chain, the `addresses` prefix before configured policies)",
+                     "a key listed twice in one policy cannot occur (YAML hash): the specification takes the later listing"],
+        trusted=DHCP_TRUST,
+    ),
     "C17": dict(
         suites=[("ra", 2500, 60000)],
         extracted=[],
